@@ -137,6 +137,45 @@ def psbt_targeted(rng, b):
     return out[:40]
 
 
+def pset_targeted(rng, b):
+    """count and length fields of a version-0 PSET whose global Elements transaction is walked by PSETView without
+    being parsed (GlobalLTransactionView skips inputs and outputs by seeking): input / output counts, issuance flags
+    and proof lengths set to attacker-chosen values with little or nothing behind them"""
+    out = []
+
+    def pset(tx, rest=b"\x00"):
+        return b"pset\xff" + gen.kv(b"\x00", tx) + rest
+
+    txin = b"\x11" * 32 + b"\x01\x00\x00\x00" + b"\x00" + b"\xfd\xff\xff\xff"
+    txin_iss = b"\x11" * 32 + b"\x01\x00\x00\x80" + b"\x00" + b"\xfd\xff\xff\xff" + b"\x22" * 64 + b"\x01" + b"\x00" * 8 + b"\x00"
+    txout = b"\x01" + b"\x33" * 32 + b"\x01" + (1000).to_bytes(8, "big") + b"\x00" + b"\x01\x51"
+    head = b"\x02\x00\x00\x00\x00"
+    for n in BIGN:
+        out.append(("pset-count", pset(head + gen.cs(n) + b"\x00" * rng.choice([0, 10, 41]))))
+        out.append(("pset-count", pset(head + gen.cs(1) + txin + gen.cs(n) + txout[:rng.choice([0, 5, len(txout)])] + b"\x00" * 4)))
+        out.append(("pset-count", pset(head + gen.cs(2) + txin_iss + txin + gen.cs(n))))
+        out.append(("pset-count", pset(head + gen.cs(n) + txin_iss)))
+    # a well-formed two-scope version-0 PSET whose output carries a range / surjection proof with a hostile length
+    good = head + gen.cs(1) + txin + gen.cs(1) + txout + b"\x00" * 4
+    for key in (b"\xfc\x04pset\x04", b"\xfc\x04pset\x05", b"\xfc\x08elements\x04", b"\xfc\x08elements\x05"):
+        for n in rng.sample(BIGN, 4):
+            out.append(("pset-prooflen", pset(good, b"\x00" + b"\x00" + gen.cs(len(key)) + key + gen.cs(n) + b"\x55" * rng.choice([0, 40]))))
+    out.append(("pset-valid-v0", pset(good, b"\x00\x00\x00")))
+    # count position inside the global transaction of the seed itself (version, flag byte, then the input count)
+    try:
+        scopes = gen_psbt.split_scopes(b"psbt" + b[4:])
+        for pi, (k, v) in enumerate(scopes[0]):
+            if k == b"\x00" and len(v) > 6:
+                for n in rng.sample(BIGN, 4):
+                    sc2 = [list(x) for x in scopes]
+                    sc2[0][pi] = (k, v[:5] + gen.cs(n) + v[6:])
+                    out.append(("pset-count", b"pset\xff" + b"".join(b"".join(gen.kv(a, c) for a, c in x) + b"\x00" for x in sc2)))
+    except Exception:
+        pass
+    rng.shuffle(out)
+    return out
+
+
 def text_mutants(rng, s, n):
     out = []
     opens = ["wsh(", "sh(", "tr(", "and_v(", "or_d(", "thresh(1,", "v:", "a:s:c:", "multi(1,", "[", "{", "<", "pkh(", "andor("]
@@ -301,6 +340,12 @@ def explore(c, per_seed):
                     muts = muts + [("truncate-every", s[:k]) for k in range(len(s))]
                 if ep in ("psbt.parse", "psbt.parse.c1", "psbtview", "psbt.read_from.noseek", "psbt.read_from.file"):
                     muts = muts + psbt_targeted(c.rng, s)[: per_seed * 2]
+                if ep in ("pset.parse", "pset.parse.c1", "psetview", "pset.read_from.noseek", "pset.read_from.file"):
+                    done = exhaustive.get("pset:" + ep, 0)
+                    exhaustive["pset:" + ep] = done + 1
+                    pt = pset_targeted(c.rng, s)
+                    # the synthetic headers do not depend on the seed: all of them once per entry point, a sample afterwards
+                    muts = muts + (pt if done == 0 else pt[: per_seed])
                 for kind, m in muts:
                     judge(c, ep, kind, m, w.call(ep, m, text), False)
         c.sample({"entry_points": len(sd), "example": {"ep": "psbt.parse", "mutant": "count field -> ff ff ff ff ff ff ff ff ff"}})
